@@ -45,6 +45,9 @@ CLAIMED = {
  "C18": ("deterministic simulation: seeded histories of manual decisions and trust messages with every storage completion scheduled (immediate / deferred / concurrent reordered); refinement against an XEP-0450 reference model, safety frame in concurrent mode",
          "seeded search over histories and completion orders against a small executable reference model; a clean batch is evidence, not proof",
          "storage completion timing simulated over the real memory storage; messages enter through QXmppClient::messageReceived"),
+ "C19": ("deterministic simulation with fault injection: one in-band transfer per run between the real transfer manager and a scripted peer; seeded block size, file size (block and 16-bit counter boundaries), announcement and one fault on the block sequence, the link or the output device; success => byte-exact copy, no fault => success",
+         "seeded search over (size, block size, announcement, fault kind and position, peer policy) through the real receiver and sender; a clean batch is evidence, not proof",
+         "transport, server relay and the remote party are simulated; SOCKS5 bytestreams are outside the simulation (shared verification path covered through in-band transfers)"),
  "C09": ("deterministic simulation with fault injection: seeded histories of sends, acks (honest/adversarial), link losses and resumptions against an executable XEP-0198 reference model fed from the wire",
          "seeded search over histories and fault sequences with a real client and an independent scripted server; refinement against a small reference model after every step",
          "transport, TLS, clock and server are simulated; server-to-client delivery is element-wise"),
